@@ -268,6 +268,206 @@ func runR3(c r3case) (verr error) {
 	return nil
 }
 
+// ---- recovery against gossip ingress (two nodes)
+//
+// While node 1's start-up recovery holds what node 2 streamed (version 1 of the key), node 2
+// writes version 2 and its gossip reaches node 1's ingress pipeline, which is already running.
+// The end of the recovery stream is held back until the gossiped operation is visible in node
+// 1's store. Afterwards node 1 must hold version 2.
+
+type r4case struct {
+	shape  string // set-set, set-del, del-set
+	during bool   // the gossip arrives while the recovery stream is still open (else: after recovery)
+}
+
+func (c r4case) String() string {
+	when := "after recovery has finished"
+	if c.during {
+		when = "while the recovery stream is open"
+	}
+	return fmt.Sprintf("%s, the newer operation arrives by gossip %s", c.shape, when)
+}
+
+func r4cases() []r4case {
+	var out []r4case
+	for _, shape := range []string{"set-set", "set-del", "del-set"} {
+		for _, d := range []bool{true, false} {
+			out = append(out, r4case{shape, d})
+		}
+	}
+	return out
+}
+
+const r4name = "R4 two nodes: start-up recovery against gossip ingress of a newer operation"
+
+func runR4(c r4case) (verr error) {
+	defer func() {
+		if p := recover(); p != nil {
+			verr = fmt.Errorf("panic: %v", p)
+		}
+	}()
+	base := kv.Config{RecoveryThreshold: 12, GossipInterval: time.Hour}
+	b := kvmock.NewBuilder(base, cluster.Config{Gossip: gossip.Config{Interval: 10 * time.Millisecond}, Pledge: pledge.Config{RetryInterval: 5 * time.Millisecond}})
+	defer func() { _ = b.Close() }()
+	var eng [3]xkv.DB
+	var db [3]*kv.DB
+	for i := 1; i <= 2; i++ {
+		eng[i] = memkv.New()
+		d, err := b.New(ctx, kv.Config{Engine: eng[i]}, cluster.Config{})
+		if err != nil {
+			return err
+		}
+		db[i] = d
+	}
+	defer func() {
+		for i := 1; i <= 2; i++ {
+			_ = eng[i].Close()
+		}
+	}()
+	deadline := time.Now().Add(60 * time.Second)
+	for {
+		if len(b.ClusterAPIs[1].Nodes()) == 2 && len(b.ClusterAPIs[2].Nodes()) == 2 {
+			break
+		}
+		if time.Now().After(deadline) {
+			return fmt.Errorf("cluster members did not learn each other within 60s")
+		}
+		time.Sleep(2 * time.Millisecond)
+		vk.Beat()
+	}
+	write := func(del bool, val string) error {
+		if del {
+			return db[2].Delete(ctx, []byte("k"))
+		}
+		return db[2].Set(ctx, []byte("k"), []byte(val))
+	}
+	firstDel, secondDel := c.shape == "del-set", c.shape == "set-del"
+	if firstDel {
+		if err := write(false, "w0"); err != nil {
+			return err
+		}
+	}
+	if err := write(firstDel, "w1"); err != nil {
+		return err
+	}
+	older, ok, err := digestOf(eng[2], "k")
+	if err != nil || !ok {
+		return fmt.Errorf("node 2 has no record after its first write: %v", err)
+	}
+	if err := db[1].Close(); err != nil {
+		return fmt.Errorf("close node 1: %w", err)
+	}
+	cl := b.ClusterAPIs[1]
+	self := cl.Host().Address
+	gate := &gatedRecovery{RecoveryTransportClient: b.RecoveryNet.StreamClient(), slow: b.ClusterAPIs[2].Host().Address, release: make(chan struct{})}
+	var once sync.Once
+	open := func() { once.Do(func() { close(gate.release) }) }
+	if !c.during {
+		open()
+	}
+	type opened struct {
+		db  *kv.DB
+		err error
+	}
+	res := make(chan opened, 1)
+	go func() {
+		d, err := kv.Open(ctx, base.Override(kv.Config{
+			Engine: eng[1], Cluster: cl,
+			BatchTransportClient: b.OpNet.UnaryClient(), BatchTransportServer: b.OpNet.UnaryServer(self),
+			FeedbackTransportClient: b.FeedbackNet.UnaryClient(), FeedbackTransportServer: b.FeedbackNet.UnaryServer(self),
+			LeaseTransportClient: b.LeaseNet.UnaryClient(), LeaseTransportServer: b.LeaseNet.UnaryServer(self),
+			RecoveryTransportClient: gate, RecoveryTransportServer: b.RecoveryNet.StreamServer(self),
+		}))
+		res <- opened{d, err}
+	}()
+	var o opened
+	got := false
+	if !c.during {
+		select {
+		case o = <-res:
+			got = true
+		case <-time.After(120 * time.Second):
+			return vk.Violationf("recovery-never-returns", "kv.Open of the restarting node did not return within 120s (%s)", c)
+		}
+		if o.err != nil {
+			return vk.Violationf("restart-fails", "kv.Open of node 1 failed: %v (%s)", o.err, c)
+		}
+	} else {
+		// give the recovery stream time to be received (it cannot finish: its end is held back)
+		time.Sleep(50 * time.Millisecond)
+	}
+	// node 2 writes the newer operation and its gossip reaches node 1
+	if err := write(secondDel, "w2"); err != nil {
+		open()
+		return err
+	}
+	newest, _, err := digestOf(eng[2], "k")
+	if err != nil || !newer(newest, older) {
+		open()
+		return fmt.Errorf("the second write did not get a newer version: %v then %v (%v)", older, newest, err)
+	}
+	op := kv.Operation{Change: xkv.Change{Key: []byte("k"), Variant: change.VariantSet, Value: []byte(newest.val)}, Leaseholder: newest.lh}
+	op.Version = version.Counter(newest.ver)
+	if newest.del {
+		op.Variant, op.Value = change.VariantDelete, nil
+	}
+	if _, err := b.OpNet.UnaryClient().Send(ctx, self, kv.TxRequest{Sender: 2, Operations: []kv.Operation{op}}); err != nil {
+		open()
+		return fmt.Errorf("gossip delivery to node 1: %w", err)
+	}
+	// wait until the ingress pipeline has stored it (or, for an implementation in which the
+	// ingress waits for recovery, for 3 s), then let the recovery stream end
+	limit := time.Now().Add(3 * time.Second)
+	for {
+		if have, ok, _ := digestOf(eng[1], "k"); ok && !newer(newest, have) {
+			break
+		}
+		if c.during && time.Now().After(limit) {
+			break
+		}
+		if !c.during && time.Now().After(limit.Add(57*time.Second)) {
+			return vk.Violationf("gossiped-operation-never-stored", "node 1 did not store the gossiped %v within 60s (%s)", newest, c)
+		}
+		time.Sleep(time.Millisecond)
+		vk.Beat()
+	}
+	open()
+	if !got {
+		select {
+		case o = <-res:
+		case <-time.After(120 * time.Second):
+			return vk.Violationf("recovery-never-returns", "kv.Open of the restarting node did not return within 120s (%s)", c)
+		}
+		if o.err != nil {
+			return vk.Violationf("restart-fails", "kv.Open of node 1 failed: %v (%s)", o.err, c)
+		}
+	}
+	b.KVs[1] = o.db
+	// the gossiped operation may still be on its way through the pipeline
+	deadline = time.Now().Add(60 * time.Second)
+	for {
+		have, ok, err := digestOf(eng[1], "k")
+		if err != nil {
+			return err
+		}
+		if ok && !newer(newest, have) {
+			// stays that way?
+			time.Sleep(20 * time.Millisecond)
+			if again, ok2, _ := digestOf(eng[1], "k"); !ok2 || newer(newest, again) {
+				return vk.Violationf("recovery-against-gossip:newer-operation-replaced-by-older",
+					"node 1 stored the gossiped %v and then fell back to %v (present=%v) (%s)", newest, again, ok2, c)
+			}
+			return nil
+		}
+		if time.Now().After(deadline) {
+			return vk.Violationf("recovery-against-gossip:newer-operation-replaced-by-older",
+				"node 1 was sent %v by gossip while its start-up recovery held the older %v from node 2; it ends with %v (present=%v) (%s)", newest, older, have, ok, c)
+		}
+		time.Sleep(2 * time.Millisecond)
+		vk.Beat()
+	}
+}
+
 func r3cases() []r3case {
 	var out []r3case
 	for _, newerAt := range []int{2, 3} {
@@ -311,6 +511,32 @@ func recovery3Part(r *vk.Run) {
 			continue
 		}
 		v.Scenario, v.Trace = r3name, []string{c.String()}
+		r.Report(v)
+	}
+	for _, c := range r4cases() {
+		vk.Beat()
+		err := runR4(c)
+		n++
+		if err == nil {
+			continue
+		}
+		var v *vk.Violation
+		if !errors.As(err, &v) {
+			r.HarnessError("%s: %s: %v", r4name, c, err)
+			continue
+		}
+		again := false
+		for k := 0; k < 2 && !again; k++ {
+			var v2 *vk.Violation
+			if e2 := runR4(c); e2 != nil && errors.As(e2, &v2) {
+				again, v = true, v2
+			}
+		}
+		if !again {
+			unconfirmed++
+			continue
+		}
+		v.Scenario, v.Trace = r4name, []string{c.String()}
 		r.Report(v)
 	}
 	r.Add("recovery_from_two_peers_cases", n)
